@@ -123,6 +123,7 @@ type c17Case struct {
 	stops    []string
 	tools    bool
 	user     string
+	suffix   string
 	out      string
 	outKind  string
 	done     llm.DoneReason
@@ -161,8 +162,8 @@ func (c *c17Case) shape() string {
 }
 
 func (c *c17Case) String() string {
-	return fmt.Sprintf("case %d: %s model=%s raw=%v system=%q format=%q stop=%v output(%s)=%q done=%s failure=%s@%d ways=%v",
-		c.id, c.shape(), c.model, c.raw, c.system, c.format, c.stops, c.outKind, c.out, c.done, failNames[c.fail], c.failPref, c.wayList())
+	return fmt.Sprintf("case %d: %s model=%s raw=%v system=%q suffix=%q format=%q stop=%v output(%s)=%q done=%s failure=%s@%d ways=%v",
+		c.id, c.shape(), c.model, c.raw, c.system, c.suffix, c.format, c.stops, c.outKind, c.out, c.done, failNames[c.fail], c.failPref, c.wayList())
 }
 
 func (c *c17Case) wayList() []string {
@@ -195,7 +196,7 @@ func c17Text(multibyte bool, maxWords int) string {
 }
 
 func c17Args() string {
-	switch verifsim.Draw("args", 6) {
+	switch verifsim.Draw("args", 7) {
 	case 0:
 		return `{}`
 	case 1:
@@ -206,6 +207,8 @@ func c17Args() string {
 		return `{"q":"日本語 🙂","opts":{"deep":{"n":1.5,"ok":true}},"none":null}`
 	case 4:
 		return `{"text":"a \"quoted\" {brace} and a \\ backslash","n":-12}`
+	case 5:
+		return `{"text":"caf\u00e9 \ud83d\ude42 tab\there","path":"C:\\dir\\file","url":"https:\/\/x.y\/z"}`
 	default:
 		return `{"a":1,"b":[1,2,{"c":"d"}]}`
 	}
@@ -234,7 +237,7 @@ func c17Call(f *apiFamily) string {
 func (cw *c17World) drawOutput(c *c17Case) {
 	kinds := []string{"text", "text", "multibyte", "multibyte", "json-not-a-call", "json-not-a-call", "empty"}
 	if c.tools {
-		kinds = []string{"text", "multibyte", "one-call", "two-calls", "call-array", "text+call", "call+text", "wrapped-calls", "json-not-a-call", "unterminated-call", "three-calls", "empty", "one-call", "two-calls"}
+		kinds = []string{"text", "multibyte", "one-call", "two-calls", "call-array", "text+call", "call+text", "wrapped-calls", "json-not-a-call", "unterminated-call", "three-calls", "empty", "one-call", "two-calls", "fenced-calls", "scalar+call"}
 	}
 	c.outKind = kinds[verifsim.Draw("outkind", len(kinds))]
 	f := c.fam
@@ -269,6 +272,10 @@ func (cw *c17World) drawOutput(c *c17Case) {
 		c.out = c17Call(f) + sep() + c17Text(verifsim.Draw("tmb", 2) == 0, 5)
 	case "wrapped-calls":
 		c.out = `{"tool_calls":[` + c17Call(f) + `,` + c17Call(f) + `]}`
+	case "fenced-calls":
+		c.out = "```json\n" + c17Call(f) + "\n" + c17Call(f) + "\n```"
+	case "scalar+call":
+		c.out = []string{"42 ", "true\n", "\"ok\" ", "null", "-1.5e3,"}[verifsim.Draw("scalar", 5)] + c17Call(f)
 	case "unterminated-call":
 		s := c17Call(f)
 		rs := []rune(s)
@@ -522,7 +529,7 @@ func (cw *c17World) perform(c *c17Case, way int, r *c17Res, ctx context.Context,
 			r.parseNative(mw, true)
 		}
 	case !wayOpenAI(way) && !c.chat:
-		req := api.GenerateRequest{Model: c.model, Prompt: c.user, System: c.system, Raw: c.raw, Options: opts}
+		req := api.GenerateRequest{Model: c.model, Prompt: c.user, Suffix: c.suffix, System: c.system, Raw: c.raw, Options: opts}
 		if c.format != "" {
 			req.Format = json.RawMessage(c.format)
 		}
@@ -560,7 +567,7 @@ func (cw *c17World) perform(c *c17Case, way int, r *c17Res, ctx context.Context,
 		mw := cw.apiJSON(ctx, "POST", "/v1/chat/completions", req)
 		r.parseOpenAI(mw, true, stream)
 	default:
-		req := openai.CompletionRequest{Model: c.model, Prompt: c.user, Stream: stream}
+		req := openai.CompletionRequest{Model: c.model, Prompt: c.user, Suffix: c.suffix, Stream: stream}
 		if len(c.stops) > 0 {
 			req.Stop = c.stops
 		}
@@ -788,11 +795,17 @@ func (cw *c17World) drawCase(id int) *c17Case {
 	d := verifsim.Draw
 	c := &c17Case{id: id}
 	c.chat = d("chat", 3) != 0
-	switch d("fam", 4) {
+	switch d("fam", 5) {
 	case 0:
 		c.fam = cw.fams[2] // plain
 	case 1:
 		c.fam = cw.fams[1]
+	case 2:
+		c.fam = cw.fams[3] // insert-capable completion template
+		c.chat = false
+		if d("suffix", 3) != 0 {
+			c.suffix = " return result" + []string{"", " // fin", "\n}"}[d("sfx", 3)]
+		}
 	default:
 		c.fam = cw.fams[0]
 	}
@@ -800,10 +813,10 @@ func (cw *c17World) drawCase(id int) *c17Case {
 	if c.chat && c.fam.tmpl != apiTmplPlain {
 		c.tools = d("tools", 4) != 0
 	}
-	if !c.chat {
+	if !c.chat && c.suffix == "" {
 		c.raw = d("raw", 4) == 0
 	}
-	if !c.raw && d("system", 3) == 0 {
+	if !c.raw && c.suffix == "" && d("system", 3) == 0 {
 		c.system = []string{"You are terse.", "Réponds en français."}[d("sys", 2)]
 	}
 	if d("format", 5) == 0 {
@@ -1135,6 +1148,7 @@ func runC17(t *testing.T, tape *verifsim.Tape, prop, tier string, keepLog bool) 
 		w.addFamily("ta", 1, false, apiTmplToolsA, "toola")
 		w.addFamily("tb", 2, false, apiTmplToolsB, "toolb")
 		w.addFamily("pl", 1, false, apiTmplPlain, "plain")
+		w.addFamily("in", 2, false, apiTmplInsert, "coder")
 		maxCases := 2
 		if tier == "thorough" {
 			maxCases = 4
@@ -1171,7 +1185,24 @@ func runC17(t *testing.T, tape *verifsim.Tape, prop, tier string, keepLog bool) 
 			}
 			return true
 		}
+		states := map[uint64]bool{}
+		sim.OnStep = func() {
+			if len(states) < 2048 {
+				var x uint64
+				for _, c := range cw.cases {
+					x = x*31 + uint64(len(c.results))*2
+					if c.cur != nil {
+						x++
+					}
+				}
+				states[w.abstractState(x)] = true
+			}
+		}
 		stop := sim.RunUntil(alldone, 30*time.Minute, 400000)
+		sim.OnStep = nil
+		for h := range states {
+			res.States = append(res.States, h)
+		}
 		res.Info["stop_"+stop.String()]++
 		if cw.setupErr != "" {
 			res.HarnessErr = "setup failed: " + cw.setupErr
@@ -1185,6 +1216,14 @@ func runC17(t *testing.T, tape *verifsim.Tape, prop, tier string, keepLog bool) 
 				res.Info["out_"+c.outKind]++
 				if c.tools {
 					res.Info["cases_with_tools"]++
+				}
+				if c.suffix != "" {
+					res.Info["cases_with_suffix"]++
+					for _, r := range c.results {
+						if r.ok {
+							res.Info["results_ok_with_suffix"]++
+						}
+					}
 				}
 				full := map[int]bool{}
 				for _, r := range c.results {
